@@ -391,14 +391,17 @@ class Module:
 
     def emit_type_defs(self):
         out = []
+        err_types = {m.ret.err.name for m in self.methods if isinstance(m.ret, Res) and isinstance(m.ret.err, (EnumT, StructT))}
         for d in self.order:
+            # the Kotlin back end insists on an `error` attribute on types used in the Err position
+            kerr = "    #[diplomat::attr(kotlin, error)]\n" if d.name in err_types else ""
             if isinstance(d, EnumDef):
                 vs_ = ", ".join("%s%s" % (n, " = %d" % v if v is not None else "") for n, v in d.variants)
-                out.append("    #[derive(PartialEq, Eq, Debug)]\n    pub enum %s { %s }" % (d.name, vs_))
+                out.append("%s    #[derive(PartialEq, Eq, Debug)]\n    pub enum %s { %s }" % (kerr, d.name, vs_))
             elif isinstance(d, StructDef):
                 lt = "<'a>" if d.borrowed else ""
                 fs = ", ".join("pub %s: %s" % (n, t.rust("'a")) for n, t in d.fields)
-                attr = "    #[diplomat::out]\n" if d.out else ""
+                attr = kerr + ("    #[diplomat::out]\n" if d.out else "")
                 out.append("%s    pub struct %s%s { %s }" % (attr, d.name, lt, fs))
             else:
                 out.append("    #[diplomat::opaque]\n    pub struct %s { pub(crate) tag: u32, pub(crate) cell: Box<u8> }" % d.name)
@@ -511,13 +514,13 @@ class Module:
         out.append("}")
         return "\n".join(out)
 
-    def emit_lib(self, harness_text="", mirror_text=""):
+    def emit_lib(self, harness_text="", mirror_text="", mirror_mod="m"):
         uses = "    use diplomat_runtime::{DiplomatOption, DiplomatResult, DiplomatWrite, DiplomatStr, DiplomatStr16, DiplomatChar, DiplomatByte, " \
                "DiplomatSlice, DiplomatSliceMut, DiplomatOwnedSlice, DiplomatStrSlice, DiplomatStr16Slice, DiplomatUtf8StrSlice, " \
                "DiplomatOwnedStrSlice, DiplomatOwnedStr16Slice, DiplomatOwnedUTF8StrSlice};\n" \
                "    use crate::vs;\n    use crate::hp;\n"
         if harness_text:
-            uses += "    #[cfg(kani)]\n    use crate::m;\n"
+            uses += "    #[cfg(kani)]\n    use crate::%s;\n" % mirror_mod
         return ("// generated by /verif/lib/bridgegen.py -- module %s\n#![allow(unused, static_mut_refs, non_snake_case, non_camel_case_types, improper_ctypes_definitions, clippy::all)]\n"
                 "#[path = \"vsupport.rs\"]\npub mod vs;\n%s\n%s\n\n#[diplomat::bridge]\npub mod ffi {\n%s\n%s\n%s\n%s\n}\n"
                 % (self.name, self.emit_helpers(), mirror_text, uses, self.emit_type_defs(), self.emit_impls(), harness_text))
@@ -750,3 +753,59 @@ def random_module(seed, idx):
         m.method("Ob", "m%d" % i, sk, ps, ret())
     m.method("Ob", "new", None, [("tag", P("u32"))], OpaqueBox("Ob"))
     return m
+
+
+# ------------------------------------------------------------------------------------------------
+# profile fitting: drop what a back end's feature profile rejects
+# ------------------------------------------------------------------------------------------------
+
+def type_mentions(t, names):
+    if t is None:
+        return False
+    if isinstance(t, (EnumT, StructT, OpaqueRef, OpaqueBox)):
+        return t.name in names
+    if isinstance(t, Opt):
+        return type_mentions(t.inner, names)
+    if isinstance(t, Res):
+        return type_mentions(t.ok, names) or type_mentions(t.err, names)
+    if isinstance(t, Callback):
+        return any(type_mentions(p, names) for p in t.params) or type_mentions(t.ret, names)
+    return False
+
+
+def any_type(t, pred):
+    """does `pred` hold for t or any type nested inside it"""
+    if t is None:
+        return False
+    if pred(t):
+        return True
+    if isinstance(t, Opt):
+        return any_type(t.inner, pred)
+    if isinstance(t, Res):
+        return any_type(t.ok, pred) or any_type(t.err, pred)
+    return False
+
+
+def filtered(mod, drop_methods=(), drop_types=(), method_pred=None, suffix=""):
+    """A copy of `mod` without the given methods [(owner, name)] / types (and everything mentioning them)."""
+    drop_types = set(drop_types)
+    changed = True
+    while changed:
+        changed = False
+        for d in mod.order:
+            if isinstance(d, StructDef) and d.name not in drop_types and any(type_mentions(t, drop_types) for _, t in d.fields):
+                drop_types.add(d.name)
+                changed = True
+    out = Module(mod.name + suffix)
+    for d in mod.order:
+        if d.name not in drop_types:
+            out.add(d)
+    for m in mod.methods:
+        if (m.owner, m.name) in set(drop_methods) or m.owner in drop_types:
+            continue
+        if any(type_mentions(t, drop_types) for _, t in m.params) or type_mentions(m.ret, drop_types):
+            continue
+        if method_pred is not None and not method_pred(m):
+            continue
+        out.methods.append(m)
+    return out
